@@ -507,7 +507,7 @@ pub fn run(ctx: &RunCtx) -> i32 {
         rep,
         Finish {
             level: "exploration",
-            rule: format!("library bytes compared with the independent reference writer for every message with 0..=2 body attributes over the {}-entry menu x 8 tails (thorough: triples with the full tail), all 16384 message types both directions, XOR attributes under 123 transaction ids, 400 error codes, u16 / ICMP / string-length sweeps, the non-last-attribute sweeps (every blob / string length, walking address bytes, single-bit integers, list lengths 0..=8), deep messages (as C01: offsets around 256..4096 / 32768, long runs, repeats, rotations of every kind, quads) without and with the full tail, the offset family of C01 (every 4-aligned body offset 0..=4200 / 16,400, around multiples of 4096 / 1024, every offset 65,300..=65,532) and XOR-* addresses with special wire forms, RFC 5769 vectors (both parsers, re-encoded with the vector's padding byte); every ignorable byte of every menu attribute set to 5 patterns, every ignorable bit alone, all together, all 2^k subsets when k<=10. Non-trivial = bytes equal / perturbed message decodes to the canonical value (by public accessors and by the value types' own equality)", n),
+            rule: format!("library bytes compared with the independent reference writer for every message with 0..=2 body attributes over the {}-entry menu x 8 tails (thorough: triples with the full tail), all 16384 message types both directions, XOR attributes under 123 transaction ids, 400 error codes, u16 / ICMP / string-length sweeps, the non-last-attribute sweeps (every blob / string length, walking address bytes, single-bit integers, list lengths 0..=8, UNKNOWN-ATTRIBUTES lists of every length up to 600 and up to 32,760 entries, PASSWORD-ALGORITHMS lists up to 200 / 4096 entries), deep messages (as C01: offsets around 256..4096 / 32768, long runs, repeats, rotations of every kind, quads) without and with the full tail, the offset family of C01 (every 4-aligned body offset 0..=4200 / 16,400, around multiples of 4096 / 1024, every offset 65,300..=65,532) and XOR-* addresses with special wire forms, RFC 5769 vectors (both parsers, re-encoded with the vector's padding byte); every ignorable byte of every menu attribute set to 5 patterns, every ignorable bit alone, all together, all 2^k subsets when k<=10. Non-trivial = bytes equal / perturbed message decodes to the canonical value (by public accessors and by the value types' own equality)", n),
             assumptions: vec![
                 "R-codec follows the library for two RFC ambiguities: the last PASSWORD-ALGORITHMS entry is padded by the attribute padding, RESPONSE-PORT has length 2".into(),
                 "reference codec written from the RFCs by the harness author; checked against RFC 5769 vectors at start-up".into(),
